@@ -33,11 +33,11 @@ TOL = 2e-5
 
 
 def gen_cases(seed, tier):
-    cases = sampling.gen_cases(seed, tier, 2, 220, 1800)
+    cases = sampling.gen_cases(seed, tier, 2, 220, 6000)
     for c in cases:
         c["wk"] = "basic"
     rng = np.random.default_rng([seed, 202])
-    m = 300 if tier == "quick" else 3000
+    m = 300 if tier == "quick" else 10000
     for i in range(m):
         cases.append(gen_algebra(rng, tier))
     return cases
